@@ -183,7 +183,9 @@ func selectAddrFromSubnetOffset(net1 *phantomNet, offset *big.Int) (*PhantomIP, 
 	}
 
 	ipBigInt.Add(ipBigInt, offset)
-	ip := net.IP(ipBigInt.Bytes())
+	// big.Int.Bytes() drops leading zero bytes, fill to the full address length so that networks
+	// whose first byte is 0 still yield a well formed address.
+	ip := net.IP(ipBigInt.FillBytes(make([]byte, addrLen/8)))
 
 	return &PhantomIP{ip: &ip, supportRandomPort: net1.supportRandomPort}, nil
 }
